@@ -17,7 +17,7 @@ ASSUMPTIONS = [
     "liveness is decided by quiescence of the deterministic engine, never by a timeout",
     "scheduler death with jobs holding tokens is covered by the real-process part",
 ]
-MIN_CLASSES = {"quick": {"aborted-start": 800, "foreign-holding": 500, "foreign-scheduler-died": 200, "half-written-token-file": 200}, "thorough": {"aborted-start": 8000}}
+MIN_CLASSES = {"quick": {"aborted-start": 800, "foreign-holding": 500, "foreign-scheduler-died": 100, "half-written-token-file": 200}, "thorough": {"aborted-start": 8000}}
 
 
 def nontrivial(case, H, labels):
